@@ -1374,7 +1374,7 @@ def c06_cases(rng, n):
     out = []
     for i in range(n):
         # counterparts are identified by their full spelling: the pool holds twins that differ in the module path / the generic argument only
-        cps = rng.sample(['A', 'B', 'C', 'x::D', 'G<u8>', 'y::D', 'x::A', 'G<u16>', 'x::G<u8>'], rng.choice([2, 2, 3]))
+        cps = rng.sample(['A', 'B', 'C', 'x::D', 'G<u8>', 'y::D', 'x::A', 'G<u16>', 'x::G<u8>', 'K<2>', 'K<4>', 'K<-1>', "R<'a>", "R<'b>", 'G<u8, 2>', 'G<u8, 3>'], rng.choice([2, 2, 3]))
         def ded():
             r = rng.random()
             return None if r < 0.35 else rng.choice(cps)
@@ -1749,6 +1749,72 @@ def c15_bases(rng, n):
                 vs.append(Variant('V%d' % j, sh, fs, [Attr('map', 'W%d' % j)] if rng.random() < 0.3 else []))
             out.append(Item('enum', 'E', 'named', '', attrs, vs, {'gen': 'c15_base', 'kind': 'enum'}))
     return out
+
+
+TYPE_LEVEL_FOREIGN = ['parent', 'parent(x, y)', 'child(a.b)', 'ghost', 'ghost({ 1 })', 'ghost_ref', 'ghost_owned({ 2 })', 'as_type(i64)', 'literal(1)', 'pattern(_)',
+                      'repeat', 'repeat(map)', 'skip_repeat', 'stop_repeat', 'type_hint(as {})']
+MEMBER_LEVEL_FOREIGN = ['children(a: A)', 'child_parents(a: A)', 'where_clause(T: Clone)', 'allow_unknown']
+
+
+def c15_allow_unknown(base, rng):
+    """the documented switch: #[o2o(allow_unknown)] somewhere in the type's #[o2o(..)] lists (alone or grouped, first / middle / last list,
+    further #[o2o(..)] lists after it that do not repeat it), then attributes of other crates whose names collide with instructions of
+    the other level - after the switch on the type, anywhere on the members.  Such an input breaks no rule: it must be accepted and
+    expand exactly like the base.  Returns (item with the switch only, item with switch + foreign attributes)."""
+    it = base.clone()
+    tl = [a for a in it.attrs if isinstance(a, Attr)]
+    if not tl:
+        return None
+    lists = []
+    k = rng.randrange(len(tl) + 1)          # position of the switch among the type-level instructions
+    for i, a in enumerate(tl):
+        if i == k:
+            lists.append(None)
+        lists.append(a)
+    if k == len(tl):
+        lists.append(None)
+    out = []
+    seen = False
+    i = 0
+    while i < len(lists):
+        a = lists[i]
+        if a is None:
+            r = rng.random()
+            au = Attr('allow_unknown', None, o2o=True)
+            if r < 0.35 and i + 1 < len(lists):
+                out.append(Group([au, lists[i + 1]]) if rng.random() < 0.5 else Group([lists[i + 1], au]))
+                i += 1
+            elif r < 0.5 and out and isinstance(out[-1], Attr):
+                out[-1] = Group([out[-1], au])
+            else:
+                out.append(au)
+            seen = True
+        else:
+            # after the switch: further #[o2o(..)] lists that do not repeat it
+            out.append(a.clone(o2o=True) if seen and rng.random() < 0.7 else a)
+        i += 1
+    it.attrs = out
+    plain = it.clone()
+    n_type = rng.choice([0, 1, 1, 2])
+    for _ in range(n_type):
+        f = rng.choice(TYPE_LEVEL_FOREIGN)
+        nm, _, rest = f.partition('(')
+        it.attrs.append(Attr(nm, rest[:-1] if rest else None))
+    members = list(it.members)
+    for m in list(members):
+        if isinstance(m, Variant):
+            members += m.fields
+    n_mem = rng.choice([0, 1, 1, 2]) if n_type else rng.choice([1, 1, 2])
+    for _ in range(n_mem):
+        if not members:
+            break
+        m = rng.choice(members)
+        f = rng.choice(MEMBER_LEVEL_FOREIGN)
+        nm, _, rest = f.partition('(')
+        m.attrs.insert(rng.randrange(len(m.attrs) + 1), Attr(nm, rest[:-1] if rest else None))
+    it.meta = dict(base.meta, gen='c15_allow_unknown')
+    plain.meta = dict(base.meta, gen='c15_allow_unknown_plain')
+    return plain, it
 
 
 def _trait_attrs(it):
@@ -2408,11 +2474,11 @@ def c08_cases(rng, n):
                 spec[a] = rng.choice(choices)
         r = rng.random()
         if r < 0.3 and not enum:
-            spec['tail'] = ('update', rng.choice(['Default::default()', 'base(@)', 'D { q: 1, ..mk() }']))
+            spec['tail'] = ('update', rng.choice(['Default::default()', 'base(@)', 'D { q: 1, ..mk() }', '<D as Seed<i32, u8>>::seed()', 'Mk::<i32, i64>::mk(@, 0)']))
         elif r < 0.55:
-            spec['tail'] = ('return', rng.choice(['mk(@)', 'conv(&@, 3)', 'W { a: @.a }']))
+            spec['tail'] = ('return', rng.choice(['mk(@)', 'conv(&@, 3)', 'W { a: @.a }', 'Tot::<i32, i64>::new(@.a, 0)', 'Vec::<(i32, i32)>::from(@)', 'fold(@, |a, b| a + b)', 'Foo::<A, _>::new()']))
         elif r < 0.75 and enum:
-            spec['tail'] = ('default', rng.choice(['panic!()', 'dflt()']))
+            spec['tail'] = ('default', rng.choice(['panic!()', 'dflt()', 'Mk::<i32, u8>::mk()', 'todo!("a, b")']))
         ps = []
         if spec['vars']:
             ps.append('vars(%s)' % ', '.join('%s: { %s }' % kv for kv in spec['vars']))
